@@ -51,7 +51,7 @@
 (*     evFull      VerifyEvidence / VerifyFaultValEvidence of every item   *)
 (*     fve         FaultValidatorsEvidence present exactly once (h > 1)    *)
 (*                                                                         *)
-(* Three things are CONSTANTS so that the tree as it is and the tree as    *)
+(* Two things are CONSTANTS so that the tree as it is and the tree as      *)
 (* the property requires it are instances of one module:                   *)
 (*   Guard  what is evaluated before a block is prevoted / locked          *)
 (*     AsCoded     checkBlockEvidence /\ CheckBlock  (before ef885bb)      *)
@@ -74,9 +74,11 @@ CONSTANTS Guard,         \* "AsCoded" | "AsRequired"
           MaxRestarts,   \* bound on restarts of a killed node
           Sched,         \* "fixed": the driver's schedule inside a phase | "free": any order
           ByzVotes,      \* "support": the Byzantine validator votes for B in every round | "free": it chooses
-          Loss,          \* proposals of correct proposers: "none" lost | "all" (reach everybody or nobody) | "any"
-          Serve          \* whom the Byzantine proposer serves: "any" subset | "prefix" (of more than three
+          Loss,          \* proposals of correct proposers: "none" is lost | "all" (each reaches everybody or nobody) |
+                         \* "every" one is lost (only the proposer itself has it) | "any"
+          Serve,         \* whom the Byzantine proposer serves: "any" subset | "prefix" (of more than three
                          \* correct validators: n1..nj for some j)
+          Equiv          \* TRUE: in one round the Byzantine proposer may show B to some and B2 to others
 
 Clauses == {"app", "ev", "basic", "chain", "height", "lastId", "totalTxs",
             "consHash", "valHash", "lastCommit", "evFull", "fve"}
@@ -282,6 +284,7 @@ RecvByz(n, v) ==
      IN /\ Prop(r) = Byz /\ InPropose(n, r) /\ AllAt(r)
         /\ Turn(n, r, LAMBDA m : LeftPropose(m, r))
         /\ (Serve = "prefix" /\ K > 3) => \A m \in N : (Idx(m) < Idx(n) /\ Active(m)) => node[m].pb # None
+        /\ ~Equiv => \A m \in N : (Active(m) /\ node[m].round = r /\ node[m].pb \in ByzVals) => node[m].pb = v
         /\ node' = [node EXCEPT ![n] = DoPrevote([@ EXCEPT !.pb = v])]
         /\ last' = [Lbl("recvByz", n, r, v) EXCEPT !.cls = Block(v).c]
   /\ UNCHANGED <<vs, blk, blk2, byz, hp>>
@@ -314,7 +317,7 @@ Dealt(r) == {m \in N : m # Prop(r) /\ node[m].round = r /\ node[m].step # "propo
 \* ... the correct proposer's proposal and block reach n
 RecvHonest(n, r) ==
   /\ Prop(r) \in N /\ n # Prop(r) /\ InPropose(n, r) /\ AllAt(r)
-  /\ hp[r] # None
+  /\ hp[r] # None /\ Loss # "every"
   /\ Turn(n, r, LAMBDA m : LeftPropose(m, r))
   /\ Loss = "all" => \A m \in Dealt(r) : node[m].pb # None
   /\ node' = [node EXCEPT ![n] = DoPrevote([@ EXCEPT !.pb = hp[r]])]
@@ -335,11 +338,11 @@ TimeoutHonest(n, r) ==
 \* the Byzantine validator's vote of a round in which it is the proposer, sent to everybody
 \* once the correct validators have voted: nil or one of its blocks
 ByzVote(kind, r, v) ==
-  /\ ByzVotes = "free" /\ Prop(r) = Byz /\ byz[kind][r] = None
+  /\ ByzVotes = "free" /\ vs # NoSetup /\ Prop(r) = Byz /\ byz[kind][r] = None
   /\ v = Nil \/ Built(v)
   /\ \E n \in N : Active(n) /\ node[n].round = r
   /\ AllAt(r) /\ AllVoted(kind, r)
-  /\ kind = "pc" => byz["pv"][r] # None
+  /\ kind = "pc" => byz["pv"][r] # None /\ v \in {Nil, byz["pv"][r]}
   /\ byz' = [byz EXCEPT ![kind][r] = v]
   /\ UNCHANGED <<vs, blk, blk2, hp, node>>
   /\ last' = Lbl(IF kind = "pv" THEN "byzPrevote" ELSE "byzPrecommit", "-", r, v)
